@@ -25,13 +25,39 @@ def waiting_ready(run, rd):
     return out
 
 
+def fifo_within_class(run, first):
+    """first containers in arrival order within a priority class"""
+    r = run.r
+    order = [k for (_, k) in r['arrivals']]
+    for cls in (1, 2, 3):
+        served = [k for k in order if r['pipes'][k][0] == cls and k in first]
+        for a, b in zip(served, served[1:]):
+            if first[a] > first[b]:
+                yield (f'priority {cls}: pipeline {b} (arrived later) got its first container at {first[b]} before pipeline {a} '
+                       f'at {first[a]}')
+        # an earlier arrival of the class that never got a container although a later one did
+        for i, k in enumerate(order):
+            if r['pipes'][k][0] == cls and k not in first and r['pipes'][k][1]:
+                later = [j for j in order[i + 1:] if r['pipes'][j][0] == cls and j in first and first[j][0] > 0]
+                arr = dict((kk, tt) for tt, kk in r['arrivals'])
+                later = [j for j in later if first[j][0] >= arr[k]]
+                if later:
+                    yield (f'priority {cls}: pipeline {k} never got a container although pipeline {later[0]}, which arrived '
+                           f'later, got its first one at {first[later[0]]}')
+                    break
+
+
 def monitor_pp(run):
     """the clauses of C12 that apply to priority-pool: strict order within the shared pool 0 (query before
     interactive) and work conservation: a ready pending operator waits only if the pool it may use (0 for query and
     interactive, 1 for batch) has no free CPU or no free RAM after the round; never a suspension"""
+    first = {}
     for rd in SP.rounds(run):
         t = rd.t
         wait = waiting_ready(run, rd)
+        for i, a in enumerate(rd.asg):
+            if a[0]:
+                first.setdefault(SP.pipe_of(run, a[0][0]), (t, i))
         if rd.susp:
             yield f'tick {t}: priority-pool issued {len(rd.susp)} suspension(s)'
         if wait[1] and any(a[3] == 2 for a in rd.asg):
@@ -43,6 +69,7 @@ def monitor_pp(run):
                 if fc > 0 and fr > 0:
                     yield (f'tick {t}: ready pending operator {wait[cls][0]} of priority {cls} left waiting although '
                            f'pool {pi}, the pool it may use, still has {fc} CPUs and {float(fr)} GB free after the round')
+    yield from fifo_within_class(run, first)
 
 
 def monitor(run):
